@@ -55,6 +55,10 @@ class Sched:
         if self.poison:
             raise SimCrash()
         r.update(label=label, pred=pred, timed=timed, state="ready", res=None)
+        if label == "cq.rlock.acq":
+            r["since_get"] = []
+        else:
+            r.setdefault("since_get", []).append(label)
         self._give("ctl")
         self._wait_turn(r)
         r["state"] = "run"
